@@ -1,52 +1,159 @@
-(* C07  More sweeps never increase a time and sweeping converges.
-   Only statements and `exact`; the proofs are in proofs/.  Model: gen/Fteik2d.v, gen/Fteik3d.v (regenerated
-   from /repo/fteikpy/_fteik/_fteik{2,3}d.py on every run). *)
+(* C07  More sweeps never increase a time and sweeping converges (model: gen/Fteik2d.v, gen/Fteik3d.v)
+   Only statements and `exact`: the proofs are in proofs/.  Written by tools/mkprops.py from Coq's own printing of the
+   lemma statements; every statement is in full below so that it cannot be weakened without this file changing. *)
 From Coq Require Import ZArith List Bool PrimFloat.
-From FT.lib Require Import Num Arr ArrLemmas Lower.
-From FT.gen Require Import Fteik2d Fteik3d.
-From FT.proofs Require Import NumFLaws Sweep2dProofs Sweep3dProofs.
+From FT.lib Require Import Num Arr ArrLemmas Lower NumArr.
+From FT.gen Require Import Common Fteik2d Fteik3d.
+From FT.proofs Require Import NumFLaws Sweep2dProofs Sweep3dProofs FloatInstances Solve2dProofs Solve3dProofs.
 Import ListNotations.
 Open Scope Z_scope.
 
-(* one full 2D sweep pass keeps the grid well formed and lowers every node or leaves it (le_or_same x y := x = y \/ x < y),
-   for every shape and every numeric instance with the two order laws - binary64 with NaN and infinities included *)
+(* one full 2D pass keeps the grid well formed and lowers every node or leaves it (le_or_same x y := x = y or x < y): every shape, every numeric instance with the two order laws *)
 Theorem C07_sweep2d_lowers :
-  forall (T : Type) (H : Num T), NumLaws T ->
-  forall (nz nx : Z) (tt : arr T) (ttsgn : arr Z) (slow : arr T) (dz dx zsi xsi zsa xsa vzero : T) (grad : bool),
-  Sweep2dProofs.okT nz nx tt ->
-  Sweep2dProofs.okT nz nx (fst (sweep2d tt ttsgn slow dz dx zsi xsi zsa xsa vzero nz nx grad)) /\
-  Sweep2dProofs.leT nz nx (fst (sweep2d tt ttsgn slow dz dx zsi xsi zsa xsa vzero nz nx grad)) tt.
+  forall (T : Type) (H : Num T),
+       NumLaws T ->
+       forall (nz nx : Z) (tt : arr T) (ttsgn : arr Z) (slow : arr T) (dz dx zsi xsi zsa xsa vzero : T) (grad : bool),
+       Sweep2dProofs.okT nz nx tt ->
+       Sweep2dProofs.okT nz nx (fst (sweep2d tt ttsgn slow dz dx zsi xsi zsa xsa vzero nz nx grad)) /\
+       Sweep2dProofs.leT nz nx (fst (sweep2d tt ttsgn slow dz dx zsi xsi zsa xsa vzero nz nx grad)) tt.
 Proof. exact @Sweep2dProofs.sweep2d_lowers. Qed.
 
+(* 3D *)
 Theorem C07_sweep3d_lowers :
-  forall (T : Type) (H : Num T), NumLaws T ->
-  forall (nz nx ny : Z) (tt : arr T) (ttsgn : arr Z) (slow : arr T) (dz dx dy : T) (grad : bool),
-  Sweep3dProofs.okT nz nx ny tt ->
-  Sweep3dProofs.okT nz nx ny (fst (sweep3d tt ttsgn slow dz dx dy nz nx ny grad)) /\
-  Sweep3dProofs.leT nz nx ny (fst (sweep3d tt ttsgn slow dz dx dy nz nx ny grad)) tt.
+  forall (T : Type) (H : Num T),
+       NumLaws T ->
+       forall (nz nx ny : Z) (tt : arr T) (ttsgn : arr Z) (slow : arr T) (dz dx dy : T) (grad : bool),
+       okT nz nx ny tt ->
+       okT nz nx ny (fst (sweep3d tt ttsgn slow dz dx dy nz nx ny grad)) /\
+       leT nz nx ny (fst (sweep3d tt ttsgn slow dz dx dy nz nx ny grad)) tt.
 Proof. exact @Sweep3dProofs.sweep3d_lowers. Qed.
 
-(* the binary64 instance satisfies the order laws, so the two theorems above hold bit for bit for the floats the code runs on *)
-Theorem C07_binary64_order_laws : NumLaws float.
-Proof. exact NumLawsF. Qed.
+(* binary64 (all floats: NaN, infinities, signed zeros) satisfies the order laws, so the above hold bit for bit *)
+Theorem C07_binary64_order_laws :
+  NumLaws float.
+Proof. exact @NumFLaws.NumLawsF. Qed.
 
+(* the instance at binary64, spelled out *)
 Theorem C07_sweep2d_lowers_binary64 :
-  forall (nz nx : Z) (tt : arr float) (ttsgn : arr Z) (slow : arr float) (dz dx zsi xsi zsa xsa vzero : float) (grad : bool),
-  Sweep2dProofs.okT nz nx tt ->
-  Sweep2dProofs.leT nz nx (fst (sweep2d tt ttsgn slow dz dx zsi xsi zsa xsa vzero nz nx grad)) tt.
-Proof. intros. apply (@Sweep2dProofs.sweep2d_lowers float NumF NumLawsF); assumption. Qed.
+  forall (nz nx : Z) (tt : arr float) (ttsgn : arr Z) (slow : arr float) (dz dx zsi xsi zsa xsa vzero : float)
+         (grad : bool),
+       Sweep2dProofs.okT nz nx tt ->
+       Sweep2dProofs.leT nz nx (fst (sweep2d tt ttsgn slow dz dx zsi xsi zsa xsa vzero nz nx grad)) tt.
+Proof. exact @FloatInstances.sweep2d_lowers_binary64. Qed.
 
-(* strict decrease is well founded on binary64 (no infinite strictly decreasing chain): with the lowering theorems this is
-   why sweeping reaches a fixed point after finitely many passes *)
-Theorem C07_float_lt_well_founded : well_founded (fun a b : float => PrimFloat.ltb a b = true).
-Proof. exact ltb_wf. Qed.
+(* 3D *)
+Theorem C07_sweep3d_lowers_binary64 :
+  forall (nz nx ny : Z) (tt : arr float) (ttsgn : arr Z) (slow : arr float) (dz dx dy : float) (grad : bool),
+       okT nz nx ny tt -> leT nz nx ny (fst (sweep3d tt ttsgn slow dz dx dy nz nx ny grad)) tt.
+Proof. exact @FloatInstances.sweep3d_lowers_binary64. Qed.
 
-(* non-vacuity: a concrete well-formed 2x2 grid *)
+(* the solver returns the nsweep-th iterate of one pass function started from an initial state that does not depend on nsweep: nsweep influences the result only as an iteration count *)
+Theorem C07_nsweep_is_an_iteration_count_2d :
+  forall (T : Type) (H : Num T) (slow : arr T) (dz dx zsrc xsrc : T) (nsweep : Z) (grad : bool),
+       inside2d slow dz dx zsrc xsrc = true ->
+       exists G : arr T,
+         fteik2d slow dz dx zsrc xsrc nsweep grad =
+         Ok
+           (fst
+              (Nat.iter (Z.to_nat nsweep) (pass2d slow dz dx zsrc xsrc grad)
+                 (st_tt (init2d slow dz dx zsrc xsrc grad), st_ttsgn (init2d slow dz dx zsrc xsrc grad))), G,
+            st_vzero (init2d slow dz dx zsrc xsrc grad)).
+Proof. exact @Solve2dProofs.fteik2d_nsweep_iter. Qed.
+
+(* 3D *)
+Theorem C07_nsweep_is_an_iteration_count_3d :
+  forall (T : Type) (H : Num T) (slow : arr T) (dz dx dy zsrc xsrc ysrc : T) (nsweep : Z) (grad : bool),
+       inside3d slow dz dx dy zsrc xsrc ysrc = true ->
+       exists G : arr T,
+         fteik3d slow dz dx dy zsrc xsrc ysrc nsweep grad =
+         Ok
+           (fst
+              (Nat.iter (Z.to_nat nsweep) (pass3d slow dz dx dy grad)
+                 (st3_tt (init3d slow dz dx dy zsrc xsrc ysrc grad),
+                  st3_ttsgn (init3d slow dz dx dy zsrc xsrc ysrc grad))), G,
+            st3_vzero (init3d slow dz dx dy zsrc xsrc ysrc grad)).
+Proof. exact @Solve3dProofs.fteik3d_nsweep_iter. Qed.
+
+(* the traveltime at every node is non-increasing in nsweep (n <= m), bit for bit, for every instance with the order laws *)
+Theorem C07_monotone_in_nsweep_2d :
+  forall (T : Type) (H : Num T) (slow : arr T) (dz dx zsrc xsrc : T),
+       NumLaws T ->
+       forall (grad : bool) (n m : Z) (ttn Gn : arr T) (vn : T) (ttm Gm : arr T) (vm : T),
+       0 <= dim slow 0 ->
+       0 <= dim slow 1 ->
+       n <= m ->
+       fteik2d slow dz dx zsrc xsrc n grad = Ok (ttn, Gn, vn) ->
+       fteik2d slow dz dx zsrc xsrc m grad = Ok (ttm, Gm, vm) ->
+       Sweep2dProofs.okT (dim slow 0 + 1) (dim slow 1 + 1) ttn /\
+       Sweep2dProofs.okT (dim slow 0 + 1) (dim slow 1 + 1) ttm /\
+       Sweep2dProofs.leT (dim slow 0 + 1) (dim slow 1 + 1) ttm ttn.
+Proof. exact @Solve2dProofs.fteik2d_monotone_in_nsweep_le. Qed.
+
+(* 3D *)
+Theorem C07_monotone_in_nsweep_3d :
+  forall (T : Type) (H : Num T) (slow : arr T) (dz dx dy zsrc xsrc ysrc : T),
+       NumLaws T ->
+       forall (grad : bool) (n m : Z) (ttn Gn : arr T) (vn : T) (ttm Gm : arr T) (vm : T),
+       0 <= dim slow 0 ->
+       0 <= dim slow 1 ->
+       0 <= dim slow 2 ->
+       n <= m ->
+       fteik3d slow dz dx dy zsrc xsrc ysrc n grad = Ok (ttn, Gn, vn) ->
+       fteik3d slow dz dx dy zsrc xsrc ysrc m grad = Ok (ttm, Gm, vm) ->
+       okT (dim slow 0 + 1) (dim slow 1 + 1) (dim slow 2 + 1) ttn /\
+       okT (dim slow 0 + 1) (dim slow 1 + 1) (dim slow 2 + 1) ttm /\
+       leT (dim slow 0 + 1) (dim slow 1 + 1) (dim slow 2 + 1) ttm ttn.
+Proof. exact @Solve3dProofs.fteik3d_monotone_in_nsweep_le. Qed.
+
+(* once an extra sweep changes nothing, every larger nsweep returns the same grid *)
+Theorem C07_fixed_point_stays_2d :
+  forall (T : Type) (H : Num T) (slow : arr T) (dz dx zsrc xsrc : T) (grad : bool) (n m : Z) 
+         (ttn Gn : arr T) (vn : T) (ttn' Gn' : arr T) (vn' : T) (ttm Gm : arr T) (vm : T),
+       0 <= n <= m ->
+       fteik2d slow dz dx zsrc xsrc n grad = Ok (ttn, Gn, vn) ->
+       fteik2d slow dz dx zsrc xsrc (n + 1) grad = Ok (ttn', Gn', vn') ->
+       ttn' = ttn -> fteik2d slow dz dx zsrc xsrc m grad = Ok (ttm, Gm, vm) -> ttm = ttn.
+Proof. exact @Solve2dProofs.fteik2d_fixed_stays. Qed.
+
+(* 3D *)
+Theorem C07_fixed_point_stays_3d :
+  forall (T : Type) (H : Num T) (slow : arr T) (dz dx dy zsrc xsrc ysrc : T) (grad : bool) 
+         (n m : Z) (ttn Gn : arr T) (vn : T) (ttn' Gn' : arr T) (vn' : T) (ttm Gm : arr T) 
+         (vm : T),
+       0 <= n <= m ->
+       fteik3d slow dz dx dy zsrc xsrc ysrc n grad = Ok (ttn, Gn, vn) ->
+       fteik3d slow dz dx dy zsrc xsrc ysrc (n + 1) grad = Ok (ttn', Gn', vn') ->
+       ttn' = ttn -> fteik3d slow dz dx dy zsrc xsrc ysrc m grad = Ok (ttm, Gm, vm) -> ttm = ttn.
+Proof. exact @Solve3dProofs.fteik3d_fixed_stays. Qed.
+
+(* binary64: after finitely many sweeps further sweeps leave the whole grid bit-identical - for every input, no NaN-freeness or domain hypothesis (rank-sum argument on the floats) *)
+Theorem C07_converges_binary64_2d :
+  forall (slow : arr float) (dz dx zsrc xsrc : float) (grad : bool),
+       exists K : nat,
+         forall k : nat, (K <= k)%nat -> grid2d slow dz dx zsrc xsrc grad k = grid2d slow dz dx zsrc xsrc grad K.
+Proof. exact @Solve2dProofs.fteik2d_converges. Qed.
+
+(* 3D *)
+Theorem C07_converges_binary64_3d :
+  forall (slow : arr float) (dz dx dy zsrc xsrc ysrc : float) (grad : bool),
+       exists K : nat,
+         forall k : nat,
+         (K <= k)%nat -> grid3d slow dz dx dy zsrc xsrc ysrc grad k = grid3d slow dz dx dy zsrc xsrc ysrc grad K.
+Proof. exact @Solve3dProofs.fteik3d_converges. Qed.
+
 Example C07_okT_inhabited : Sweep2dProofs.okT 2 2 (full [2; 2] 1%float).
-Proof. split; [apply wf_full; repeat constructor; discriminate | reflexivity]. Qed.
+Proof. exact FloatInstances.okT_inhabited. Qed.
 
 Print Assumptions C07_sweep2d_lowers.
 Print Assumptions C07_sweep3d_lowers.
 Print Assumptions C07_binary64_order_laws.
 Print Assumptions C07_sweep2d_lowers_binary64.
-Print Assumptions C07_float_lt_well_founded.
+Print Assumptions C07_sweep3d_lowers_binary64.
+Print Assumptions C07_nsweep_is_an_iteration_count_2d.
+Print Assumptions C07_nsweep_is_an_iteration_count_3d.
+Print Assumptions C07_monotone_in_nsweep_2d.
+Print Assumptions C07_monotone_in_nsweep_3d.
+Print Assumptions C07_fixed_point_stays_2d.
+Print Assumptions C07_fixed_point_stays_3d.
+Print Assumptions C07_converges_binary64_2d.
+Print Assumptions C07_converges_binary64_3d.
